@@ -177,6 +177,10 @@ fn c12_merge_stats_split_invariant() {
   kani::cover!(v[0] == v[1] && v[1] == v[2], "all values equal");
 }
 
+// The m2 / variance term of merge_stats was tried with an exact oracle (four integer
+// values in +-1000, segmentation 2|2, every intermediate value dyadic): the symbolic
+// f64 multiplications do not get through the SAT solver in 900 s.  Outside the claim.
+
 fn qstate(vals: &[f64]) -> QuantileState {
   let mut q = QuantileState::default();
   let mut i = 0;
